@@ -829,9 +829,47 @@ func runC02(c *core.Ctx) core.Meta {
 		}
 	}
 
-	// ---------------- R02.9 the ALU does not observe when the compute unit advances the PC ----------------
-	st9 := c.Rule("R02.9", "the emulation compute unit advances the PC before it runs the ALU and the timing compute unit after it, so the PC register seen by a handler differs by the instruction size between the modes; relative branches are immune (PC() + displacement is written back with SetPC and the later / earlier increment commutes), every other use is not: in both ALUs a value read with PC() flows only into SetPC, never into WriteOperand or memory; a handler that needs its own address reads Inst.PC, which both compute units set where they decode the instruction", 6)
+	// ---------------- R02.9 both modes show the ALU the same PC ----------------
+	st9 := c.Rule("R02.9", "the ALU is shared by both modes and some handlers read the PC register (relative branches, s_getpc_b64): both compute units run the ALU with the PC at the address of the executing instruction and add the instruction size afterwards: in the emulator's execution loop no call that runs the ALU is reachable, within one iteration, after the PC was advanced by the instruction size (the timing units advance the PC in their write stage, after the execute stage); and a handler that writes a PC-derived value to an operand computes the same function of PC() in both ALUs", 3)
 	{
+		if fn := c.MustFunc("R02.9", emuPkg, "ComputeUnit.runWfUntilBarrier"); fn != nil {
+			c.MarkAnalysed(fn)
+			g := core.BuildGraph(fn, 2, func(cal *ssa.Function) bool { return cal.Pkg == fn.Pkg })
+			isAdvance := func(n *core.Node) bool {
+				cc := core.CallOf(n.Instr)
+				if cc == nil || cc.StaticCallee() == nil || cc.StaticCallee().Name() != "SetPC" || len(cc.Args) < 2 {
+					return false
+				}
+				return strings.Contains(prov.Of(cc.Args[1]), ".ByteSize")
+			}
+			isRun := func(n *core.Node) bool {
+				cc := core.CallOf(n.Instr)
+				return cc != nil && cc.IsInvoke() && cc.Method.Name() == "Run" && strings.Contains(cc.Value.Type().String(), "ALU")
+			}
+			adv := g.NodesWhere(isAdvance)
+			runs := g.NodesWhere(isRun)
+			st9.Instances++
+			st9.Ob(len(adv) > 0 && len(runs) > 0)
+			if len(adv) == 0 || len(runs) == 0 {
+				c.Report(core.Finding{Rule: "R02.9", Kind: "anchor", Pkg: emuPkg, Func: "ComputeUnit.runWfUntilBarrier", Detail: "shape", Msg: fmt.Sprintf("PC advance (%d) / ALU run (%d) not recognised in the emulator's execution loop", len(adv), len(runs))})
+			}
+			for _, a := range adv {
+				st9.Instances++
+				reach, okW := g.Reach(core.After(a, nil), core.WalkOpts{ForwardOnly: true})
+				early := false
+				for _, r := range runs {
+					if reach[r] {
+						early = true
+					}
+				}
+				st9.Ob(okW && !early)
+				if early {
+					c.ReportAt("R02.9", fn, a.Instr.Pos(), "pc-advanced-before-alu", "the emulator advances the PC by the instruction size before it runs the ALU, the timing compute unit after it: a handler that reads the PC register (s_getpc_b64) sees a value that differs by the instruction size between the two modes")
+				}
+			}
+		}
+		// sibling handlers that write a PC-derived value
+		written := map[string]map[string]string{} // handler name -> ALU -> provenance of the written value
 		for _, a := range []struct{ pkg, typ string }{{emuPkg, "ALUImpl"}, {cdna3Pkg, "ALU"}} {
 			for _, fn := range c.SrcFuncs(a.pkg) {
 				if fn.Signature.Recv() == nil || !strings.HasSuffix(fn.Signature.Recv().Type().String(), "."+a.typ) {
@@ -839,74 +877,34 @@ func runC02(c *core.Ctx) core.Meta {
 				}
 				for _, b := range fn.Blocks {
 					for _, in := range b.Instrs {
-						name, _ := stateMethod(in)
-						if name != "PC" {
+						name, cc := stateMethod(in)
+						if name != "WriteOperand" {
 							continue
 						}
-						st9.Instances++
+						pv := prov.Of(cc.Args[len(cc.Args)-1])
+						if !strings.Contains(pv, ".PC()") {
+							continue
+						}
+						if written[fn.Name()] == nil {
+							written[fn.Name()] = map[string]string{}
+						}
+						written[fn.Name()][a.typ] = pv
 						c.MarkAnalysed(fn)
-						bad := ""
-						seen := map[ssa.Value]bool{}
-						var follow func(v ssa.Value, d int)
-						follow = func(v ssa.Value, d int) {
-							if v == nil || seen[v] || d > 8 || v.Referrers() == nil {
-								return
-							}
-							seen[v] = true
-							for _, r := range *v.Referrers() {
-								switch t := r.(type) {
-								case *ssa.BinOp:
-									follow(t, d+1)
-								case *ssa.Convert:
-									follow(t, d+1)
-								case *ssa.ChangeType:
-									follow(t, d+1)
-								case *ssa.Phi:
-									follow(t, d+1)
-								case *ssa.DebugRef:
-								default:
-									if n2, _ := stateMethod(r); n2 == "SetPC" {
-										continue
-									}
-									if n2, _ := stateMethod(r); n2 != "" {
-										bad = n2
-									} else if _, isStore := r.(*ssa.Store); isStore {
-										bad = "a store"
-									} else if cc := core.CallOf(r); cc != nil {
-										bad = "a call"
-									}
-								}
-							}
-						}
-						follow(in.(ssa.Value), 0)
-						st9.Ob(bad == "")
-						if bad != "" {
-							c.ReportAt("R02.9", fn, in.Pos(), "pc-observed:"+core.FuncName(fn), fmt.Sprintf("%s passes a value derived from the wavefront's PC register to %s: emulation has already advanced the PC when the handler runs and timing has not, so the result differs by the instruction size between the two modes", core.FuncName(fn), bad))
-						}
 					}
 				}
 			}
 		}
-		// both compute units record the instruction's own address where they decode it
-		for _, site := range []struct{ pkg, fn string }{{emuPkg, "ComputeUnit.runWfUntilBarrier"}, {cuPkg, "SchedulerImpl.DecodeNextInst"}} {
-			fn := c.SSAFunc(site.pkg, site.fn)
+		for _, h := range sortedKeys(written) {
 			st9.Instances++
-			sets := false
-			if fn != nil {
-				c.MarkAnalysed(fn)
-				for _, b := range fn.Blocks {
-					for _, in := range b.Instrs {
-						if s, ok := in.(*ssa.Store); ok {
-							if fa, ok := s.Addr.(*ssa.FieldAddr); ok && fieldNameOf(fa) == "PC" && instFieldName(fa.X.Type(), fa.Field) == "PC" {
-								sets = true
-							}
-						}
-					}
-				}
+			vals := map[string]bool{}
+			for _, v := range written[h] {
+				vals[v] = true
 			}
-			st9.Ob(sets)
-			if !sets {
-				c.Report(core.Finding{Rule: "R02.9", Pkg: site.pkg, Func: site.fn, Detail: "inst-address-not-recorded", Msg: site.fn + " decodes an instruction for execution without recording its address in Inst.PC: a handler that needs its own address has to fall back on the mode-dependent PC register"})
+			okS := len(vals) == 1
+			st9.Ob(okS)
+			st9.Sample("%s writes %v", h, sortedKeys(vals))
+			if !okS {
+				c.Report(core.Finding{Rule: "R02.9", Pkg: emuPkg, Func: h, Detail: "pc-siblings:" + h, Msg: fmt.Sprintf("the two ALUs write different functions of the PC register in %s (%v): at most one of them is right for the PC the compute units present", h, written[h])})
 			}
 		}
 	}
